@@ -147,7 +147,19 @@ where
 
     writeln!(writer, "#[derive(Debug, Default, YaSerialize, YaDeserialize)]")?;
     if let Some(tns) = &target_namespace {
-        let namespaces = format!("\"{}\" = \"{}\"", tns.abbreviation, tns.namespace);
+        // declare the type's own namespace and the namespace of every member that lives in another one
+        // (inherited from a base type of another schema, or a reference to an element of another schema)
+        let mut declared = vec![tns];
+        for field_tns in fields.iter().filter_map(|f| f.target_namespace.as_ref()) {
+            if !declared.iter().any(|ns| ns.abbreviation == field_tns.abbreviation) {
+                declared.push(field_tns);
+            }
+        }
+        let namespaces = declared
+            .iter()
+            .map(|ns| format!("\"{}\" = \"{}\"", ns.abbreviation, ns.namespace))
+            .collect::<Vec<String>>()
+            .join(", ");
         writeln!(
             writer,
             "#[yaserde(prefix = \"{}\", namespaces = {{{}}}, rename = \"{}\")]",
